@@ -874,9 +874,9 @@ fn draw_async_fate(g: &mut Inner, owner: &str, node: usize) -> AsyncFate {
             2 => (AsyncFate::ResetBefore, "async_reset_before_exec"),
             3 => (AsyncFate::ResetAfter { pre }, "async_reset_after_exec"),
             _ => {
-                let base = g.cfg.node_timeout_ms;
+                // later than any client-side timeout (500ms response timeout of redis-rs)
                 let extra = g.tape.choose(g.cfg.lease_ttl_ms * 2);
-                (AsyncFate::Late { delay: base + 1 + extra }, "async_late_execution")
+                (AsyncFate::Late { delay: 1001 + extra }, "async_late_execution")
             }
         };
         g.fault(name);
